@@ -42,6 +42,22 @@ theorem amounts_are_item_4 (ctx : Ctx) (st : Store) (q : Query) (ps us : List Rp
     (∀ k n, (∃ e ∈ r.2, e.1 = k ∧ (getArr r.1 e.2).amount = n) ↔ (k, n) ∈ (build q ps us).alloc) :=
   consolidate_is_spec ctx st (placements q ps us) hmulti
 
+/-- the same for a whole combination as `_merge_candidates` meets it: the per-group requests (`specCombo`) refer to
+fresh objects holding their placements, the unsuffixed group's first (the order of `candidates`); consolidating the
+combination yields exactly the entries of `(build q ps us).alloc`, whatever the order of the groups -/
+theorem amounts_of_combination_are_item_4 (ctx : Ctx) (st : Store) (anchor : Nat) (q : Query) (ps us : List RpRow)
+    (h1 : q.groups.length = ps.length)
+    (hmulti : ∀ k, 2 ≤ ((placements q ps us).map (·.1)).count k → ctx.multiRcs.contains k.2 = true) :
+    let lU := unsuffPlacements q us
+    let lG := groupPlacements q ps
+    let st0 := st ++ (lU ++ lG).map toArr
+    let combo := specCombo anchor q ps us (List.range' st.length lU.length)
+      (idsOfGroups (st.length + lU.length) q.groups)
+    let r := consolidateArrs ctx st0 [] (combo.flatMap (·.arrs))
+    (∀ n, n < st0.length → getArr r.1 n = getArr st0 n) ∧
+    (∀ k n, (∃ e ∈ r.2, e.1 = k ∧ (getArr r.1 e.2).amount = n) ↔ (k, n) ∈ (build q ps us).alloc) :=
+  consolidate_specCombo_is_build ctx st anchor q ps us h1 hmulti
+
 /-- ... and the mappings of the merged request are `Spec.build`'s mappings (suffixes are the names of the request
 groups: pairwise distinct) -/
 theorem mappings_are_item_4 (anchor : Nat) (q : Query) (ps us : List RpRow) (idsU : List Nat) (idsG : List (List Nat))
